@@ -424,6 +424,19 @@ func cmdRun(prop string) int {
 		"rewrites":                      rewrites,
 		"explanation":                   "stateless DFS over every schedule / select choice / cancel and timer instant of each scenario on the instrumented repository sources; states = distinct happens-before state keys, transitions = scheduler steps",
 	}
+	// the bounded-exhaustive content part of the same property (engine E2), if it ran
+	if b, err := os.ReadFile("/verif/evidence/parts/" + prop + ".e2.json"); err == nil {
+		var part map[string]interface{}
+		if json.Unmarshal(b, &part) == nil {
+			cov["e2_part"] = part["coverage"]
+			if v, ok := part["violations"].(float64); ok {
+				rep.Violations += int(v)
+			}
+			if v, ok := part["known_findings_hit"].(float64); ok {
+				rep.KnownHits += int(v)
+			}
+		}
+	}
 	if states == 0 {
 		cov["states"] = 1
 	}
